@@ -808,6 +808,22 @@ def s_eigen_cases(draw, tier):
     return {"u": draw(uniform_connected(tier)), "seed": draw(S.seeds)}
 
 
+@st.composite
+def s_cec_slow_cases(draw, tier):
+    """Two complete 3-uniform blocks of b nodes joined by one mirror pair of bridging
+    hyperedges: the clique-expansion matrix has lambda_2/lambda_1 = 0.98..0.99, the power
+    iteration needs 1500-3000 steps to reach 1e-12 -- more than a default cap of 1000, fewer than
+    the max_iter=20000 the check passes (the advertised argument has to be honoured)."""
+    from itertools import combinations
+    b = draw(st.sampled_from([9, 10, 11]))
+    A, Bn = list(range(b)), list(range(b, 2 * b))
+    edges = [list(c) for c in combinations(A, 3)] + [list(c) for c in combinations(Bn, 3)]
+    edges += [[A[0], A[1], Bn[0]], [Bn[0], Bn[1], A[0]]]
+    names = permuted(range(2 * b), draw(S.seeds))
+    return {"u": {"k": 3, "n": 2 * b, "edges": [[names[x] for x in e] for e in edges],
+                  "dropped": 0, "slow": True}, "seed": draw(S.seeds)}
+
+
 def _eigen_labels(ctx, uc, c):
     ctx.label("k=%d" % uc["k"], "edges=%d" % min(len(uc["edges"]), 4))
     ctx.nontrivial(len(uc["edges"]) >= 3 and max(c) - min(c) > 1e-6)
@@ -976,6 +992,69 @@ def check_relabelling(case, ctx):
 
 RULE = "at least three hyperedges and a non-constant centrality"
 
+
+# --------------------------------------------------------------------------
+# C20.subhypergraph_centrality_far: nodes several steps away from a dense core
+#
+# log (e^A)_ii of a node at distance d from a core with largest eigenvalue L is dominated by
+# v_1[i]^2 e^L with v_1[i] ~ L^-d: an implementation that drops "negligible" eigenvector entries
+# loses the whole value.  Double-precision references are unreliable here (the unchanged
+# library is off by up to ~1e-5 absolute for these nodes), so the reference is the EXACT series
+# sum_k (A^k)_ii / k! in integer/rational arithmetic, and the tolerance is a loose 1e-3 relative
+# (stated; a dropped dominant term is wrong by tens of units).
+
+
+@st.composite
+def far_node_cases(draw, tier):
+    return {"m": draw(st.sampled_from([24, 30, 40])), "d": draw(st.sampled_from([4, 5, 6])),
+            "strs": draw(st.booleans()), "order_seed": draw(S.seeds)}
+
+
+def _exact_log_expm_diag(A, i, lam):
+    from fractions import Fraction
+    n = len(A)
+    nz = [[c for c in range(n) if A[r][c]] for r in range(n)]
+    v = [0] * n
+    v[i] = 1
+    total, fact = Fraction(1), 1
+    for k in range(1, int(4 * lam) + 61):
+        v = [sum(A[r][c] * v[c] for c in nz[r]) for r in range(n)]
+        fact *= k
+        total += Fraction(v[i], fact)
+    return math.log(total.numerator) - math.log(total.denominator)
+
+
+def check_subhypergraph_centrality_far(case, ctx):
+    import numpy as np
+    from hypergraphx import Hypergraph
+    m, d = case["m"], case["d"]
+    name = (lambda i: "n%03d" % i) if case["strs"] else (lambda i: 3 * i - 7)
+    raw = [tuple(range(m)), tuple(range(m - 1))] + [(m - 1 + j, m + j) for j in range(d)]
+    n = m + d
+    edges = [frozenset(name(i) for i in e) for e in permuted(raw, case["order_seed"])]
+    h = Hypergraph([tuple(sorted(e, key=repr)) for e in edges])
+    A = [[0] * n for _ in range(n)]
+    for e in raw:
+        for a in e:
+            for b in e:
+                if a != b:
+                    A[a][b] += 1
+    lam = float(np.linalg.eigvalsh(np.array(A, dtype=float)).max())
+    nodes = {name(i) for i in range(n)}
+    got = _sub_centrality_by_node(h, nodes, "subhypergraph_centrality(H)")
+    for i in (n - 1, n - 2, n - 3, 0):
+        exp = _exact_log_expm_diag(A, i, lam)
+        g = got[name(i)]
+        tol = 1e-3 * max(1.0, abs(exp))
+        require(math.isfinite(g) and abs(g - exp) <= tol,
+                lambda: "subhypergraph_centrality(H) for node %r (distance %d from a core of %d "
+                        "nodes, largest adjacency eigenvalue %.1f) = %r, exact log (e^A)_ii = %r "
+                        "(tolerance %g)" % (name(i), max(0, i - (m - 1)), m, lam, g, exp, tol),
+                key="sub-value-far")
+    ctx.label("core=%d chain=%d" % (m, d))
+    ctx.nontrivial(lam ** -d < 1.5e-8)
+
+
 CLAUSES = [
     Clause("s_edges", lambda tier: s_edges_cases(tier), check_s_edges, quick=400, thorough=1500,
            shards_quick=2, rule=RULE + " (s-betweenness or s-closeness of hyperedges)"),
@@ -989,12 +1068,17 @@ CLAUSES = [
                 "hyperedge closeness"),
     Clause("subhypergraph_centrality", s_sub_cases, check_subhypergraph_centrality, quick=170,
            thorough=1000, shards_quick=3, rule=RULE),   # two exact oracles per case
+    Clause("subhypergraph_centrality_far", far_node_cases, check_subhypergraph_centrality_far,
+           quick=6, thorough=10,
+           rule="a node whose dominant eigenvector entry is below sqrt(eps)"),
     Clause("subhypergraph_centrality_heavy", heavy_overlap_cases,
            check_subhypergraph_centrality_heavy, quick=24, thorough=60,
            rule="largest adjacency eigenvalue above 300 (heavy overlap; above 709.78 exp "
                 "overflows in float64)"),
     Clause("cec", lambda tier: s_eigen_cases(tier), check_cec, quick=200, thorough=1500,
            shards_quick=2, rule=RULE),
+    Clause("cec_slow", s_cec_slow_cases, check_cec, quick=4, thorough=8,
+           rule="two weakly bridged complete blocks (more than 1000 power iterations needed)"),
     Clause("hec", lambda tier: s_eigen_cases(tier), check_hec, quick=130, thorough=1500,
            shards_quick=3, rule=RULE),
     Clause("relabelling", lambda tier: s_relabel_cases(tier), check_relabelling, quick=130,
